@@ -33,7 +33,12 @@ type schedState struct {
 	err      interface{}
 }
 
-const maxPreempt = 2
+// Preemption policy. Races are detected with vector clocks on every shared
+// access of whatever schedule runs; for programs that turn out race free it is
+// enough to interleave at synchronisation operations (Lock/Unlock, thread
+// start/end), which is what the explorer does by default. With
+// engine.preempt=1 every shared access is a preemption point as well.
+var defaultMaxPreempt = 2
 
 func (c *Ctx) sch() *schedState {
 	if c.sched == nil {
@@ -177,7 +182,7 @@ func (c *Ctx) chooseFree(n int) int {
 // visible is called before a shared-memory operation by a spawned thread
 func (c *Ctx) visible(loc interface{}, write bool, what string) {
 	s := c.sched
-	if s == nil || len(s.threads) == 1 {
+	if s == nil || len(s.threads) == 1 || c.noTrack > 0 {
 		return
 	}
 	self := s.me()
@@ -189,7 +194,7 @@ func (c *Ctx) visible(loc interface{}, write bool, what string) {
 				others++
 			}
 		}
-		if others > 0 && s.preempts < maxPreempt {
+		if c.preemptEverywhere && others > 0 && s.preempts < c.maxPreempt {
 			if c.chooseFree(2) == 1 {
 				s.preempts++
 				// switch to some other runnable thread
@@ -258,6 +263,7 @@ func (c *Ctx) join() {
 
 func (c *Ctx) lock(m *Value) {
 	s := c.sch()
+	c.syncPoint()
 	for {
 		st := s.mu[m]
 		if st == nil {
@@ -287,6 +293,39 @@ func (c *Ctx) unlock(m *Value) {
 	st.held = false
 	st.vc = append([]int{}, me.vc...)
 	me.vc[me.id]++
+	c.syncPoint()
+}
+
+// syncPoint: a spawned thread may be preempted here (bounded).
+func (c *Ctx) syncPoint() {
+	s := c.sched
+	if s == nil || len(s.threads) == 1 {
+		return
+	}
+	self := s.me()
+	if self.id == 0 || s.preempts >= c.maxPreempt {
+		return
+	}
+	var cand []int
+	for _, k := range c.runnable() {
+		if k != self.id {
+			cand = append(cand, k)
+		}
+	}
+	if len(cand) == 0 {
+		return
+	}
+	if c.chooseFree(2) == 0 {
+		return
+	}
+	s.preempts++
+	k := cand[c.chooseFree(len(cand))]
+	s.cur = k
+	s.threads[k].resume <- struct{}{}
+	<-self.resume
+	if s.err != nil {
+		panic(threadKilled{})
+	}
 }
 
 // schedCleanup releases the goroutines of logical threads that are still parked.
